@@ -316,8 +316,25 @@ flow travel helper
 '''
 
 
+V2_DEFAULT_SRC = """
+import core
+
+flow main
+  activate collector
+
+flow collector $items=[] $seen={"n": 0}
+  while True
+    user said something
+    ($items.append("x"))
+    ($seen.update({"n": $seen["n"] + 1}))
+    bot say "items {len($items)} seen {$seen['n']}"
+"""
+
+
 def v2_conv_sets():
     return [
+        # a container-valued parameter default that the flow changes in place: every conversation starts from the declared default
+        ("container-default-changed-in-place", [("I", ["i one", "i two"]), ("J", ["j one"])], V2_DEFAULT_SRC),
         ("flow-continued-from-its-docstring", [("G", ["cook", "what about pasta?"]), ("H", ["travel"])], V2_DOC_SRC),
         ("generated-flow-still-alive-at-turn-end", [("A", ["UA hello", "UA again"]), ("B", ["UB hello"])]),
         ("two-conversations-generate-the-same-undefined-flow", [("C", ["UC hello", "UC more"]), ("D", ["UD hello"])]),
